@@ -164,7 +164,11 @@ Definition kind_eqb (a b : kind) : bool :=
   end.
 
 (* which conversion code /repo has: the tree as found (false) or with fixes.d/C15-narrow-conv.patch (true) *)
-Record cfg := Cfg { narrow_fixed : bool; cast_fixed : bool }.
+Record cfg := Cfg { narrow_fixed : bool; cast_fixed : bool;
+                    (* SharedArrayBuffer.prototype.slice compares the *addresses* of the two data blocks (shared.rs, step 18);
+                       every zero-sized block has the same dangling address, so slicing an empty shared buffer throws
+                       (false = tree as found, true = fixes.d/C15-sab-empty-slice.patch: identity of the blocks) *)
+                    sab_slice_fixed : bool }.
 
 (* the signed/unsigned element value produced by JsValue::to_int8 ... to_u32 / to_uint8_clamp *)
 Definition conv_old (k : kind) (d : dbl) : Z :=
@@ -473,7 +477,11 @@ Definition dv_write (k : kind) (le : bool) (bi : Z) (bits : Z) (data : list Z) :
 
 Record buffer := Buf { b_data : option (list Z); b_max : option Z; b_shared : bool }.
 Inductive view := VTA (t : tarr) | VDV (v : dview).
-Record state := St { bufs : list (option buffer); views : list (option view); poisoned : bool }.
+(* `bufs` is the heap of buffer objects, indexed by identity (an id is never reused: a view keeps its
+   buffer when the harness slot that named it is overwritten); `bslots` maps the harness slots B[i]
+   to identities; `views` are the harness slots V[i] (a view value is immutable geometry + buffer id) *)
+Record state := St { bufs : list (option buffer); bslots : list (option nat);
+                     views : list (option view); poisoned : bool }.
 
 Definition MAX_BUFFER_SIZE : Z := 1610612736.    (* HostHooks::max_buffer_size default *)
 
@@ -487,9 +495,14 @@ Fixpoint set_nth {A} (n : nat) (a : option A) (l : list (option A)) : list (opti
 Definition get_buf (s : state) (b : nat) : option buffer := nth b (bufs s) None.
 Definition get_view (s : state) (v : nat) : option view := nth v (views s) None.
 Definition put_buf (s : state) (b : nat) (x : option buffer) : state :=
-  St (set_nth b x (bufs s)) (views s) (poisoned s).
+  St (set_nth b x (bufs s)) (bslots s) (views s) (poisoned s).
 Definition put_view (s : state) (v : nat) (x : option view) : state :=
-  St (bufs s) (set_nth v x (views s)) (poisoned s).
+  St (bufs s) (bslots s) (set_nth v x (views s)) (poisoned s).
+(* slot -> identity, and `B[d] = <a new buffer object>` *)
+Definition slot_id (s : state) (b : nat) : option nat := nth b (bslots s) None.
+Definition fresh_id (s : state) : nat := length (bufs s).
+Definition new_buf (s : state) (d : nat) (bf : buffer) : state :=
+  St (bufs s ++ [Some bf]) (set_nth d (Some (fresh_id s)) (bslots s)) (views s) (poisoned s).
 Definition set_data (s : state) (b : nat) (d : list Z) : state :=
   match get_buf s b with
   | Some bf => put_buf s b (Some (Buf (Some d) (b_max bf) (b_shared bf)))
@@ -547,8 +560,18 @@ Definition do_detach (s : state) (b : nat) : state :=
 Definition run_mid (s : state) (m : mid) : res state :=
   match m with
   | NoMid => Ok s
-  | MidResize b n => do_resize s b n
-  | MidDetach b => Ok (do_detach s b)
+  | MidResize b n =>                    (* B[b].resize(n) / .grow(n): n goes through ToIndex first *)
+      match slot_id s b with
+      | Some id =>
+          match get_buf s id with
+          | Some bf =>
+              if b_shared bf && match b_max bf with None => true | _ => false end then Err TypeError
+              else if (n <? 0) || (MAX_SAFE <? n) then Err RangeError else do_resize s id n
+          | None => Ok s
+          end
+      | None => Ok s
+      end
+  | MidDetach b => match slot_id s b with Some id => Ok (do_detach s id) | None => Ok s end
   end.
 
 (* InitializeTypedArrayFromArrayBuffer with converted offset / length *)
@@ -580,7 +603,7 @@ Definition init_from_buffer (s : state) (k : kind) (b : nat) (off : jsval) (len 
 Definition alloc_ta (s : state) (db : nat) (k : kind) (n : Z) : res (state * tarr) :=
   let bl := u64 (esize k * n) in
   if MAX_BUFFER_SIZE <? bl then Err RangeError else
-  Ok (put_buf s db (Some (Buf (Some (zeros bl)) None false)), TArr db k 0 (Some bl) (Some n)).
+  Ok (new_buf s db (Buf (Some (zeros bl)) None false), TArr (fresh_id s) k 0 (Some bl) (Some n)).
 
 (* TypedArray::validate: Some (buffer length) or TypeError *)
 Definition ta_validate (s : state) (t : tarr) : res Z :=
@@ -630,6 +653,63 @@ Fixpoint set_list (c : cfg) (s : state) (t : tarr) (k : Z) (vs : list jsval) : r
               match o with Some s' => set_list c s' t (k + 1) r | None => Ok None end
   end.
 
+(* SetTypedArrayFromArrayLike stores element by element: when element i throws, elements before it stay stored *)
+Fixpoint set_list_prefix (c : cfg) (t : tarr) (s0 : state) (k : Z) (vs : list jsval) : state :=
+  match vs with
+  | [] => s0
+  | x :: r => match set_element c s0 t (idx_of_Z k) x with
+              | Ok (Some s1) => set_list_prefix c t s1 (k + 1) r
+              | _ => s0
+              end
+  end.
+(* InitializeTypedArrayFromTypedArray, different element types: read, TypedArrayElement::cast, append *)
+Fixpoint cast_loop (c : cfg) (st : tarr) (k : kind) (data : list Z) (n : nat) (i : Z) (acc : list Z) (poison : bool)
+  : option (list Z * bool) :=
+  match n with
+  | O => Some (acc, poison)
+  | S n' =>
+      match ta_read st i data with
+      | None => None
+      | Some bits =>
+          match cast_elem c (t_kind st) k bits with
+          | Some b' => cast_loop c st k data n' (i + 1) (acc ++ bytes_le (nsize k) b') poison
+          | None => cast_loop c st k data n' (i + 1) (acc ++ bytes_le (nsize k) 0) true
+          end
+      end
+  end.
+(* SetTypedArrayFromTypedArray, different element types: GetValueFromBuffer, get_element, SetValueInBuffer *)
+Fixpoint set_conv_loop (c : cfg) (sk tk : kind) (sbytes : list Z) (n : nat) (si ti : Z) (td : list Z) : option (list Z) :=
+  match n with
+  | O => Some td
+  | S n' =>
+      match read_bytes si (nsize sk) sbytes with
+      | None => None
+      | Some bs =>
+          match js_to_elem c tk (elem_to_js sk (of_bytes_le bs)) with
+          | Err _ => None
+          | Ok bits =>
+              match write_bytes ti (bytes_le (nsize tk) bits) td with
+              | Some td' => set_conv_loop c sk tk sbytes n' (si + esize sk) (ti + esize tk) td'
+              | None => None
+              end
+          end
+      end
+  end.
+(* %TypedArray%.prototype.with: copy element by element into the new array, replacing index ai *)
+Fixpoint with_loop (c : cfg) (t nt : tarr) (ai : Z) (value : jsval) (n : nat) (j : Z) (st0 : state) : option state :=
+  match n with
+  | O => Some st0
+  | S n' =>
+      let val := if j =? ai then Some value else get_element st0 t (idx_of_Z j) in
+      match val with
+      | None => None
+      | Some vv => match set_element c st0 nt (idx_of_Z j) vv with
+                   | Ok (Some st1) => with_loop c t nt ai value n' (j + 1) st1
+                   | _ => None
+                   end
+      end
+  end.
+
 (* property keys used by OGet/OSet: a Number (ToString then CanonicalNumericIndexString gives the
    same number back, -0 becoming +0) or the string "-0" *)
 Inductive key := KNum (bits : Z) | KNegZero.
@@ -676,18 +756,20 @@ Definition step (c : cfg) (s : state) (o : op) : state * out :=
       match mx with
       | Some m => if m <? n then (s, OThrow RangeError)
                   else if MAX_BUFFER_SIZE <? m then (s, OThrow RangeError)
-                  else (put_buf s d (Some (Buf (Some (zeros n)) (Some m) shared)), ODone)
+                  else (new_buf s d (Buf (Some (zeros n)) (Some m) shared), ODone)
       | None => if MAX_BUFFER_SIZE <? n then (s, OThrow RangeError)
-                else (put_buf s d (Some (Buf (Some (zeros n)) None shared)), ODone)
+                else (new_buf s d (Buf (Some (zeros n)) None shared), ODone)
       end))
-  | Resize b nv =>
+  | Resize b0 nv =>
+      match slot_id s b0 with None => (s, OSkip) | Some b =>
       match get_buf s b with
       | None => (s, OSkip)
       | Some bf =>
           if b_shared bf && match b_max bf with None => true | _ => false end then (s, OThrow TypeError)
           else thrown s (to_index nv) (fun n => thrown s (do_resize s b n) (fun s' => (s', ODone)))
-      end
-  | Transfer d b to_fixed nv =>
+      end end
+  | Transfer d b0 to_fixed nv =>
+      match slot_id s b0 with None => (s, OSkip) | Some b =>
       match get_buf s b with
       | None => (s, OSkip)
       | Some bf =>
@@ -701,17 +783,19 @@ Definition step (c : cfg) (s : state) (o : op) : state * out :=
               let new_max := if to_fixed then None else b_max bf in
               match new_max with
               | Some mx => if mx <? n then (s, OThrow RangeError)
-                           else (put_buf (do_detach s b) d (Some (Buf (Some (resize_list dt n)) new_max false)), ODone)
-              | None => (put_buf (do_detach s b) d (Some (Buf (Some (resize_list dt n)) None false)), ODone)
+                           else (new_buf (do_detach s b) d (Buf (Some (resize_list dt n)) new_max false), ODone)
+              | None => (new_buf (do_detach s b) d (Buf (Some (resize_list dt n)) None false), ODone)
               end
           end)
-      end
-  | Detach b =>
+      end end
+  | Detach b0 =>
+      match slot_id s b0 with None => (s, OSkip) | Some b =>
       match get_buf s b with
       | None => (s, OSkip)
       | Some bf => if b_shared bf then (s, OThrow TypeError) else (do_detach s b, ODone)
-      end
-  | BufSlice d b st en =>
+      end end
+  | BufSlice d b0 st en =>
+      match slot_id s b0 with None => (s, OSkip) | Some b =>
       match get_buf s b with
       | None => (s, OSkip)
       | Some bf =>
@@ -723,14 +807,19 @@ Definition step (c : cfg) (s : state) (o : op) : state * out :=
               thrown s (relative_end en len) (fun final =>
               let new_len := Z.max 0 (final - first) in
               let chunk := firstn (Z.to_nat new_len) (skipn (Z.to_nat first) dt) in
-              (put_buf s d (Some (Buf (Some chunk) None (b_shared bf))), ODone)))
+              (* allocation size of the source block: maxByteLength for a growable shared buffer *)
+              let alloc_len := match b_max bf with Some m => m | None => len end in
+              if b_shared bf && negb (sab_slice_fixed c) && (alloc_len =? 0) && (new_len =? 0)
+              then (s, OThrow TypeError)
+              else (new_buf s d (Buf (Some chunk) None (b_shared bf)), ODone)))
           end
-      end
-  | MkTA d k b off len =>
+      end end
+  | MkTA d k b0 off len =>
+      match slot_id s b0 with None => (s, OSkip) | Some b =>
       match get_buf s b with
       | None => (s, OSkip)
       | Some _ => thrown s (init_from_buffer s k b off len) (fun t => (put_view s d (Some (VTA t)), ODone))
-      end
+      end end
   | MkTALen d db k nv =>
       thrown s (to_index nv) (fun n =>
       thrown s (alloc_ta s db k n) (fun '(s', t) => (put_view s' d (Some (VTA t)), ODone)))
@@ -746,36 +835,27 @@ Definition step (c : cfg) (s : state) (o : op) : state * out :=
               if kind_eqb k (t_kind st) then
                 match read_bytes (t_off st) (Z.to_nat bl) data with
                 | Some chunk =>
-                    (put_view (put_buf s db (Some (Buf (Some chunk) None false))) d
-                       (Some (VTA (TArr db k 0 (Some bl) (Some elen)))), ODone)
+                    (* SliceRef::clone -> ArrayBuffer::allocate -> create_byte_data_block *)
+                    if MAX_BUFFER_SIZE <? bl then (s, OThrow RangeError) else
+                    (put_view (new_buf s db (Buf (Some chunk) None false)) d
+                       (Some (VTA (TArr (fresh_id s) k 0 (Some bl) (Some elen)))), ODone)
                 | None => (s, OPanic)
                 end
+              else if MAX_BUFFER_SIZE <? bl then (s, OThrow RangeError)     (* ArrayBuffer::allocate comes first *)
               else if negb (Bool.eqb (is_big k) (is_big (t_kind st))) then (s, OThrow TypeError)
               else
-                let fix go (n : nat) (i : Z) (acc : list Z) (poison : bool) : option (list Z * bool) :=
-                  match n with
-                  | O => Some (acc, poison)
-                  | S n' =>
-                      match ta_read st i data with
-                      | None => None
-                      | Some bits =>
-                          match cast_elem c (t_kind st) k bits with
-                          | Some b' => go n' (i + 1) (acc ++ bytes_le (nsize k) b') poison
-                          | None => go n' (i + 1) (acc ++ bytes_le (nsize k) 0) true
-                          end
-                      end
-                  end in
-                match go (Z.to_nat elen) 0 [] false with
+                match cast_loop c st k data (Z.to_nat elen) 0 [] false with
                 | None => (s, OPanic)
                 | Some (bytes, poison) =>
-                    let s1 := put_buf s db (Some (Buf (Some bytes) None false)) in
-                    let s2 := put_view s1 d (Some (VTA (TArr db k 0 (Some bl) (Some elen)))) in
-                    (St (bufs s2) (views s2) (poisoned s2 || poison), ODone)
+                    let s1 := new_buf s db (Buf (Some bytes) None false) in
+                    let s2 := put_view s1 d (Some (VTA (TArr (fresh_id s) k 0 (Some bl) (Some elen)))) in
+                    (St (bufs s2) (bslots s2) (views s2) (poisoned s2 || poison), ODone)
                 end
           end)
       | _ => (s, OSkip)
       end
-  | MkDV d b off len =>
+  | MkDV d b0 off len =>
+      match slot_id s b0 with None => (s, OSkip) | Some b =>
       match get_buf s b with
       | None => (s, OSkip)
       | Some bf =>
@@ -795,7 +875,7 @@ Definition step (c : cfg) (s : state) (o : op) : state * out :=
                   else (put_view s d (Some (VDV (DView b offset (Some l)))), ODone))
               end
           end)
-      end
+      end end
   | Get v i =>
       match get_view s v with
       | Some (VTA t) =>
@@ -937,24 +1017,7 @@ Definition step (c : cfg) (s : state) (o : op) : state * out :=
                           | None => (s, OPanic)
                           end
                         else
-                          let fix go (n : nat) (si ti : Z) (td : list Z) : option (list Z) :=
-                            match n with
-                            | O => Some td
-                            | S n' =>
-                                match read_bytes si (nsize sk) sbytes with
-                                | None => None
-                                | Some bs =>
-                                    match js_to_elem c tk (elem_to_js sk (of_bytes_le bs)) with
-                                    | Err _ => None
-                                    | Ok bits =>
-                                        match write_bytes ti (bytes_le (nsize tk) bits) td with
-                                        | Some td' => go n' (si + esize sk) (ti + esize tk) td'
-                                        | None => None
-                                        end
-                                    end
-                                end
-                            end in
-                          match go (Z.to_nat src_length) src_byte_index target_byte_index tdata with
+                          match set_conv_loop c sk tk sbytes (Z.to_nat src_length) src_byte_index target_byte_index tdata with
                           | Some td' => (set_data s (t_buf tgt) td', ODone)
                           | None => (s, OPanic)
                           end
@@ -982,15 +1045,7 @@ Definition step (c : cfg) (s : state) (o : op) : state * out :=
               | Ok None => (s, OPanic)
               | Err e =>
                   (* elements before the failing one have been stored: replay the prefix *)
-                  let fix pre (s0 : state) (k : Z) (vs : list jsval) : state :=
-                    match vs with
-                    | [] => s0
-                    | x :: r => match set_element c s0 t (idx_of_Z k) x with
-                                | Ok (Some s1) => pre s1 (k + 1) r
-                                | _ => s0
-                                end
-                    end in
-                  (pre s z xs, OThrow e)
+                  (set_list_prefix c t s z xs, OThrow e)
               end)
           | PInf => thrown s (ta_validate s t) (fun _ => (s, OThrow RangeError))
           end)
@@ -1028,6 +1083,7 @@ Definition step (c : cfg) (s : state) (o : op) : state * out :=
           thrown s1 (relative_end en src_len) (fun end_index =>
           let count := Z.max 0 (end_index - start_index) in
           thrown s1 (alloc_ta s1 db k count) (fun '(s2, nt) =>
+          let nid := t_buf nt in
           let s3 := put_view s2 d (Some (VTA nt)) in
           if count =? 0 then (s3, ODone) else
           (* a TypeError here is thrown out of `slice`: the new array is never seen by the caller *)
@@ -1042,9 +1098,9 @@ Definition step (c : cfg) (s : state) (o : op) : state * out :=
               let src_bi := u64 (u64 (start_index * esize k) + t_off t) in
               match read_bytes src_bi (Z.to_nat byte_count) dt with
               | Some chunk =>
-                  match buf_data s3 db with
+                  match buf_data s3 nid with
                   | Some nd => match write_bytes 0 chunk nd with
-                               | Some nd' => (set_data s3 db nd', ODone)
+                               | Some nd' => (set_data s3 nid nd', ODone)
                                | None => (s3, OPanic)
                                end
                   | None => (s3, OPanic)
@@ -1092,20 +1148,7 @@ Definition step (c : cfg) (s : state) (o : op) : state * out :=
               | None => (s, OThrow RangeError)
               | Some ai =>
                   thrown s (alloc_ta s db k len) (fun '(s1, nt) =>
-                  let fix go (n : nat) (j : Z) (st0 : state) : option state :=
-                    match n with
-                    | O => Some st0
-                    | S n' =>
-                        let val := if j =? ai then Some value else get_element st0 t (idx_of_Z j) in
-                        match val with
-                        | None => None
-                        | Some vv => match set_element c st0 nt (idx_of_Z j) vv with
-                                     | Ok (Some st1) => go n' (j + 1) st1
-                                     | _ => None
-                                     end
-                        end
-                    end in
-                  match go (Z.to_nat len) 0 s1 with
+                  match with_loop c t nt ai value (Z.to_nat len) 0 s1 with
                   | Some s2 => (put_view s2 d (Some (VTA nt)), ODone)
                   | None => (s, OPanic)
                   end)
@@ -1147,9 +1190,10 @@ Definition obs_buf (b : option buffer) : bobs :=
   | Some bf => match b_data bf with None => BDetached | Some d => BBytes d (b_max bf) end
   end.
 Definition observe (s : state) : list bobs * list vobs * bool :=
-  (map obs_buf (bufs s), map (obs_view s) (views s), poisoned s).
+  (map (fun o => match o with None => BNone | Some id => obs_buf (get_buf s id) end) (bslots s),
+   map (obs_view s) (views s), poisoned s).
 
-Definition init_state : state := St [] [] false.
+Definition init_state : state := St [] [] [] false.
 Fixpoint run (c : cfg) (s : state) (ops : list op) : list (out * (list bobs * list vobs * bool)) :=
   match ops with
   | [] => []
